@@ -220,6 +220,9 @@ def suite_pairs(ctx, res, n, n_tiny=0):
         cases.append(c)
     # a glyph borrowing from two otherwise unrelated glyphs: all three must end up in one OT-SVG document (and the build must succeed)
     cases += [fontgen.make_two_donor_case(8 * ctx.rng.getrandbits(16) + i, fmt="picosvg" if i < 8 else "glyf_colr_1") for i in range(8 + max(0, n_tiny // 8))]
+    # one outline several times within a glyph, the copies differing from the first in opacity only / fill only / both, the first mostly black and
+    # translucent: what a <use> of an in-place donor cannot override (reuse on must paint what reuse off paints)
+    cases += [fontgen.make_use_override_case(4 * ctx.rng.getrandbits(16) + i, fmt="picosvg" if i % 4 < 3 else "glyf_colr_1") for i in range(6 + max(0, n_tiny // 8))]
     from nanoemoji import paint as npaint
 
     orig_apply = npaint.PaintRadialGradient.apply_transform
